@@ -486,7 +486,7 @@ func C14() *sim.Check {
 
 	return &sim.Check{
 		Prop: "C14", Harness: "h_pfb", Level: "exploration",
-		Rule:        "streams: a segment list (types 1/2, lengths 0..300, optional end marker, trailing garbage, or one anomaly: short binary/text segment, bad header, partial header) is drawn from the tape together with an underlying delivery schedule and a caller buffer-size sequence; every Read of pfb.Decode is checked against a 30-line reference model. A case is non-trivial when the stream has a non-empty binary segment and at least one odd caller buffer size was used; distinct = distinct (stream bytes, schedule, buffer sequence) hash. headers: all 65536 first-two-byte values x {one read, 1-byte reads}, each counted once.",
+		Rule:        "streams: a segment list (types 1/2, lengths 0..300, optional end marker, trailing garbage, or one anomaly: short binary/text segment, bad header, partial header) is drawn from the tape together with an underlying delivery schedule and a caller buffer-size sequence; every Read of pfb.Decode is checked against a 30-line reference model. A case is non-trivial when the stream has a non-empty binary segment and at least one odd caller buffer size was used; distinct = distinct (stream bytes, schedule, buffer sequence) hash. headers: all 65536 first-two-byte values x {one read, 1-byte reads}, each counted once. Bad headers are drawn from real file starts (PFA, PDF, OpenType, TrueType, WOFF, AFM, gzip, a PFB shifted by one byte) one time in four; one stream in six is finished with io.Copy after 0-5 Reads; duet: a second decoder is advanced from inside the first one's source reads; successor decoders: after a decoder has returned io.EOF a new one is made for another stream, the finished one is read again (must stay finished) and the new one must deliver its own stream; huge-segments: 2 GiB / 4 GiB-1 segments from a virtual source, read with a 3 MiB buffer.",
 		Assume:      []string{"the reference model in harness/h_pfb.go is the specification of PFB framing", "underlying readers never return (0, nil) for a non-empty buffer"},
 		RealStub:    map[string]any{"real": []string{"pfb.Decode (unmodified /repo code)", "io.ReadFull"}, "stub": []string{"underlying reader (SimReader)", "caller (buffer-size sequence)"}},
 		Batches:     []*sim.Batch{headers, huge, duet, random},
